@@ -1,9 +1,10 @@
 // unit int_modpow_double: integer/src/modular/pow.rs `mod double` (instance of the macro impl_mod_pow_for_primitive!):
 // pow_word, pow_helper (left-to-right square-and-multiply over one exponent word), pow (one/two-word exponents),
 // pow_nontrivial (multi-word exponents, unbounded length).  C13 clause "pow(e)":  residue(ret) == residue(raw)^e mod m.
-// ASSUMED (lib/mp_prim2_stubs.rs): the num_modular Reducer (sqr / mul on stored numbers) and `ReducedDword::one`;
+// ReducedDword::one (modular/repr.rs) is verified here against its real body.
+// ASSUMED (lib/mp_prim2_stubs.rs): the num_modular Reducer (sqr / mul on stored numbers), ring.shift() / normalized_divisor();
 // lib/mp_prim_common.rs: UBig::repr().  primitive::split_dword via //@@ SIG (proved in its own unit).
-// GENUINE DEFECT (single-word rings): modulus 1, exponent 0 is excluded by the preconditions (ReducedWord::one stores 2^63).
+// Holds for every modulus m >= 1 and every exponent (the modulus-1 defect of ReducedWord::one was repaired in /repo 296f9c6).
 #![allow(unused_imports, unused_variables, dead_code, non_snake_case, unused_mut, unused_parens, unused_braces)]
 use vstd::prelude::*;
 verus! {
@@ -15,6 +16,9 @@ global size_of usize == 8;
 //@@ INCLUDE lib/mp_prim_common.rs
 //@@ INCLUDE lib/mp_prim2_stubs.rs
 //@@ SIG integer/primitive/split_dword.rs
+impl ReducedDword {
+//@@ FN integer/modpow/prim2_one.rs
+}
 pub mod double {
 use super::*;
 //@@ FN integer/modpow/prim_pow_helper.rs msubst=ring:ConstDoubleDivisor,raw:ReducedDword,ns:double
